@@ -265,6 +265,104 @@ func c01Accept(s *source, e *emitter, rel string) {
 	e.stringList("newGoogleBreakerFields", "composite literal of newGoogleBreaker", fields)
 }
 
+// c01SwitchCases lists, for the first switch statement of a function, the tag and every clause as
+// "case a, b: <first statement>" / "default: <first statement>".
+func c01SwitchCases(s *source, e *emitter, rel, goName, lean string) {
+	fd := s.findFunc(rel, goName)
+	if fd == nil {
+		e.errors = append(e.errors, fmt.Sprintf("function %s not found in %s", goName, rel))
+		e.stringList(lean, "MISSING: "+goName, []string{"MISSING"})
+		return
+	}
+	var out []string
+	done := false
+	ast.Inspect(fd.Body, func(n ast.Node) bool {
+		sw, ok := n.(*ast.SwitchStmt)
+		if !ok || done {
+			return true
+		}
+		done = true
+		if sw.Tag != nil {
+			out = append(out, "switch "+s.src(sw.Tag))
+		}
+		for _, st := range sw.Body.List {
+			cc := st.(*ast.CaseClause)
+			var body []string
+			for _, b := range cc.Body {
+				body = append(body, s.src(b))
+			}
+			if cc.List == nil {
+				out = append(out, "default: "+strings.Join(body, "; "))
+				continue
+			}
+			var names []string
+			for _, x := range cc.List {
+				names = append(names, s.src(x))
+			}
+			out = append(out, "case "+strings.Join(names, ", ")+": "+strings.Join(body, "; "))
+		}
+		return false
+	})
+	e.stringList(lean, "first switch of `"+goName+"` in "+rel, out)
+}
+
+// c01MapKeys lists the keys of a package-level map composite literal.
+func c01MapKeys(s *source, e *emitter, rel, varName, lean string) {
+	f := s.file(rel)
+	var out []string
+	found := false
+	if f != nil {
+		for _, d := range f.Decls {
+			gd, ok := d.(*ast.GenDecl)
+			if !ok || gd.Tok != token.VAR {
+				continue
+			}
+			for _, sp := range gd.Specs {
+				vs := sp.(*ast.ValueSpec)
+				for i, n := range vs.Names {
+					if n.Name != varName || i >= len(vs.Values) {
+						continue
+					}
+					if cl, ok := vs.Values[i].(*ast.CompositeLit); ok {
+						found = true
+						for _, el := range cl.Elts {
+							if kv, ok := el.(*ast.KeyValueExpr); ok {
+								out = append(out, s.src(kv.Key))
+							}
+						}
+					}
+				}
+			}
+		}
+	}
+	if !found {
+		e.errors = append(e.errors, fmt.Sprintf("map %s not found in %s", varName, rel))
+	}
+	e.stringList(lean, "keys of `"+varName+"` in "+rel, out)
+}
+
+// c01BreakerCalls lists the calls `….brk.<Method>(…)` of a function as "<fun>(…, <last argument>)": which entry
+// point of the breaker is used and which acceptability predicate is handed over (the request closure is elided).
+func c01BreakerCalls(s *source, e *emitter, rel, goName, lean string) {
+	fd := s.findFunc(rel, goName)
+	if fd == nil {
+		e.errors = append(e.errors, fmt.Sprintf("function %s not found in %s", goName, rel))
+		e.stringList(lean, "MISSING: "+goName, []string{"MISSING"})
+		return
+	}
+	var out []string
+	ast.Inspect(fd.Body, func(n ast.Node) bool {
+		if c, ok := n.(*ast.CallExpr); ok {
+			fn := s.src(c.Fun)
+			if strings.Contains(fn, "brk.") && len(c.Args) > 0 {
+				out = append(out, fn+"(…, "+s.src(c.Args[len(c.Args)-1])+")")
+			}
+		}
+		return true
+	})
+	e.stringList(lean, "breaker calls of `"+goName+"` in "+rel, out)
+}
+
 func c01Reducer(t *translator, s *source, e *emitter, rel string) {
 	fd := s.findFunc(rel, "googleBreaker.history")
 	var lit *ast.FuncLit
@@ -357,5 +455,39 @@ func init() {
 		c01Stmts(s, e, rw, "NewRollingWindow", "newRollingWindowStmts")
 		// proba
 		c01Stmts(s, e, pr, "Proba.TrueOnProba", "trueOnProbaStmts")
+		// ---- call sites
+		const rh = "rest/handler/breakerhandler.go"
+		e.shapeDef(s, rh, "BreakerHandler", "restBreakerHandlerShape")
+		const zc = "zrpc/internal/clientinterceptors/breakerinterceptor.go"
+		c01Calls(s, e, zc, "BreakerInterceptor", "zrpcClientCalls")
+		c01Stmts(s, e, zc, "BreakerInterceptor", "zrpcClientStmts")
+		const zs = "zrpc/internal/serverinterceptors/breakerinterceptor.go"
+		c01Stmts(s, e, zs, "UnaryBreakerInterceptor", "zrpcServerUnaryStmts")
+		c01Stmts(s, e, zs, "StreamBreakerInterceptor", "zrpcServerStreamStmts")
+		c01Stmts(s, e, zs, "serverSideAcceptable", "serverSideAcceptableStmts")
+		c01Stmts(s, e, zs, "convertError", "convertErrorStmts")
+		c01SwitchCases(s, e, "zrpc/internal/codes/accept.go", "Acceptable", "codesAcceptableSwitch")
+		const rb = "core/stores/redis/breakerhook.go"
+		e.shapeDef(s, rb, "breakerHook.ProcessHook", "redisProcessHookShape")
+		e.shapeDef(s, rb, "breakerHook.ProcessPipelineHook", "redisPipelineHookShape")
+		c01BreakerCalls(s, e, rb, "breakerHook.ProcessHook", "redisProcessHookBreaker")
+		c01BreakerCalls(s, e, rb, "breakerHook.ProcessPipelineHook", "redisPipelineHookBreaker")
+		c01MapKeys(s, e, rb, "ignoreCmds", "redisIgnoreCmds")
+		c01Stmts(s, e, "core/stores/redis/redis.go", "acceptable", "redisAcceptableStmts")
+		const sq = "core/stores/sqlx/sqlconn.go"
+		c01Stmts(s, e, sq, "commonSqlConn.acceptable", "sqlxAcceptableStmts")
+		for _, fn := range []string{"ExecCtx", "PrepareCtx", "TransactCtx", "queryRows"} {
+			c01BreakerCalls(s, e, sq, "commonSqlConn."+fn, "sqlx"+strings.ToUpper(fn[:1])+fn[1:]+"Breaker")
+		}
+		c01Stmts(s, e, "core/stores/sqlx/orm.go", "isScanFailed", "sqlxIsScanFailedStmts")
+		// breakers.go
+		const bs = "core/breaker/breakers.go"
+		e.shapeDef(s, bs, "GetBreaker", "getBreakerShape")
+		c01Stmts(s, e, bs, "GetBreaker", "getBreakerStmts")
+		c01Stmts(s, e, bs, "do", "breakersLookupStmts")
+		for _, fn := range []string{"Do", "DoCtx", "DoWithAcceptable", "DoWithAcceptableCtx", "DoWithFallback", "DoWithFallbackCtx",
+			"DoWithFallbackAcceptable", "DoWithFallbackAcceptableCtx"} {
+			c01Stmts(s, e, bs, fn, "breakers"+fn+"Stmts")
+		}
 	})
 }
